@@ -35,6 +35,7 @@ OptBN = TOpt(TNetObj)
 OptLN = TOpt(TList(TName))
 LS = TList(TSpace)
 LI = TList(TInt)
+LV = TList(TVSet)
 
 A = z3.ArraySort
 
